@@ -99,6 +99,19 @@ func c09hash(c *runner.Ctx, i int) {
 		if err != nil || got != want {
 			c.Violation(fmt.Sprintf("C09:murmur3:len%%16=%d:highbyte=%v", len(key)%16, high), fmt.Sprintf("Murmur3 token %s, Cassandra computes %s (%v)", got, want, err), map[string]interface{}{"key_hex": fmt.Sprintf("%x", key)})
 		}
+		// the same bytes as a sub-slice that does not start on a word boundary (a key cut out of a larger buffer, a
+		// []byte bound to a blob / text key): the token depends on the bytes, not on where they sit in memory
+		if len(key) > 0 {
+			off := 1 + (i+len(key))%15
+			buf := make([]byte, len(key)+32)
+			copy(buf[off:], key)
+			sub := buf[off : off+len(key)]
+			got2, err2 := gocql.VerifPartitionerHash("Murmur3Partitioner", sub)
+			c.Add("unaligned_keys", 1)
+			if err2 != nil || got2 != want {
+				c.Violation(fmt.Sprintf("C09:murmur3:unaligned:len%%16=%d:highbyte=%v", len(key)%16, high), fmt.Sprintf("Murmur3 token %s for the key at offset %d of a buffer, Cassandra computes %s (%v)", got2, off, want, err2), map[string]interface{}{"key_hex": fmt.Sprintf("%x", key), "offset_in_buffer": off})
+			}
+		}
 		// Random
 		got, err = gocql.VerifPartitionerHash("RandomPartitioner", key)
 		rt := cqlref.RandomToken(key)
